@@ -470,6 +470,10 @@ class Body:
                     v = mk_proj(v, ("ix", self.val_local(e["ix"], stack)))
                     continue
                 if "ci" in e:
+                    if e.get("from_end") and e["ci"] == 1:
+                        # `[.., x]`: the last element (the pattern's length test, `len >= 1`, is what `last()` being Some says)
+                        v = mk_proj(mk_proj(("call", "core::slice::<impl [T]>::last", (v,), None), ("dc", "Some")), ("f", 0, "0"))
+                        continue
                     v = mk_proj(v, ("ix", ("const", "int", e["ci"] if not e.get("from_end") else -1 - e["ci"])))
                     continue
             v = ("unknown", "projection %s" % json.dumps(e))
